@@ -58,6 +58,30 @@ def gen_exhaustive(kmax):
     return out
 
 
+def gen_split_reboot():
+    """reboot() split between its two stores (needs schedule point 6): the thread advances, a reset or a
+    spurious wake-up arrives, while the controller holds the mutex with reset_ set and run_ not yet cleared"""
+    out = []
+    for name in BASES:
+        pre, adv = base_tokens(name)
+        n = len(adv)
+        for p in range(n + 1):
+            for q in range(p, min(n, p + 5) + 1):
+                for extra in [None] + [(x, e) for x in range(p, q + 1) for e in ("s", "u")]:
+                    toks = list(pre)
+                    for i in range(n + 1):
+                        if i == p:
+                            toks.append("b1")
+                        if extra and extra[0] == i:
+                            toks.append(extra[1])
+                        if i == q:
+                            toks.append("b2")
+                        if i < n:
+                            toks.append(adv[i])
+                    out.append((toks, "split:%s" % name))
+    return out
+
+
 def gen_random(g, n, lo, hi):
     out = []
     for i in range(n):
@@ -84,6 +108,10 @@ def norm(words):
             w = w[0].lower() + w[1:]
         out.append(w)
     return out
+
+
+def b1_blocked(dwords):
+    return any(w.startswith("b1:") and w.split(":")[2] == "k" for w in dwords)
 
 
 def two_pending(dwords):
@@ -327,7 +355,7 @@ def finalize(ctx, scheds):
     nh = 0
     for idx, ((toks, kind, post), d) in enumerate(zip(scheds, first)):
         dw = d.split()
-        if two_pending(dw):
+        if two_pending(dw) or b1_blocked(dw):
             continue
         if dw and dw[-1] == "j:hang":
             if nh < keep_hang and (kind.startswith("exh") and len(toks) % 3 == 0 or nh < 2):
@@ -373,6 +401,11 @@ def run(ctx):
     kmax = ctx.n(2, 3)
     scheds += gen_exhaustive(kmax)
     scheds += gen_random(g, ctx.n(1200, 6000), 20, 120)
+    # schedule point 6 (inside reboot()) is a proposed hook: used when the tree under test has it
+    probe, _ = vlib.run_harness(binary, ["life 5000 b1 b2"])
+    have6 = not probe[0].startswith("b1:nohook")
+    if have6:
+        scheds += gen_split_reboot()
     if ctx.replay:
         rp = json.load(open(ctx.replay))["replay"]
         toks = rp["schedule"].split()
@@ -508,7 +541,7 @@ def run(ctx):
         "traces_validated_against_impl": len(ok_cases),
         "model_vs_impl_disagreements": len(mism), "disagreements_confirmed_on_rerun": len(confirmed), "disagreements_not_reproduced": flaky,
         "property_failures_on_impl": len(prop_bad), "free_run_failures": len(free_bad), "free_run_steps_observed": fsteps,
-        "schedule_kinds": hist_kind,
+        "schedule_kinds": hist_kind, "reboot_split_hook_6_present": have6 if not ctx.replay else None,
         "abstract_states_visited_on_impl": len(states),
         "program_counters_visited_on_impl": pcs,
         "control_edges_visited_on_impl": edges, "control_edges_not_visited": missing_edges,
